@@ -129,6 +129,9 @@ def run_history(R, mp, kind, ops, pre, rng, label):
                 drv.read(*[rng.choice(small) for _ in range(op[1])])
             elif op[0] == "readbig":
                 drv.read("%s{%d}" % (arrs[0], op[1]), *[rng.choice(small) for _ in range(op[2])])
+            elif op[0] == "readmid":     # several slices, each more than half a connection: one request per packet
+                n = conn * 6 // 10
+                drv.read(*["%s[%d]{%d}" % (arrs[i % len(arrs)], i, n) for i in range(op[1])])
             elif op[0] == "write":
                 drv.write(*[(rng.choice([s for s in small if tags[s]["data_type"] in ("SINT", "INT", "DINT")]), 1) for _ in range(op[1])])
             elif op[0] == "writebit":
@@ -199,7 +202,7 @@ def run(R, escalate=False):
     thorough = R.tier == "thorough" or escalate
     rng = R.rng
     R.rule = ("histories of connected operations on real drivers (generic messages, Logix reads/writes incl. multi-service, fragmented and "
-              "read-modify-write plans, Micro800 single requests, SLC reads/writes) with the generator advanced to a random phase within 300 draws "
+              "read-modify-write plans, reads of several slices each larger than half a connection (one request per packet), Micro800 single requests, SLC reads/writes) with the generator advanced to a random phase within 300 draws "
               "of the wrap-around (or across it several times in thorough); plus the 65534-tag read after one message (gap = PERIOD). "
               "non-trivial = distinct history with at least two connected messages")
     mp = fw.ModelProc("C17")
@@ -228,9 +231,9 @@ def run(R, escalate=False):
     # (b) histories
     ops_pool = {
         "cip": [("gm", 0), ("gm", 1), ("gm", 7), ("gmu",), ("gmlost",)],
-        "logix": [("gm", 3), ("read", 1), ("read", 2), ("read", 5), ("read", 40), ("readbig", 600, 0), ("readbig", 4100, 2), ("write", 1), ("write", 3),
+        "logix": [("gm", 3), ("read", 1), ("read", 2), ("read", 5), ("read", 40), ("readbig", 600, 0), ("readbig", 4100, 2), ("readmid", 2), ("readmid", 3), ("write", 1), ("write", 3),
                   ("writebit", 1), ("writebit", 4), ("writebig", 600), ("writebig", 4100), ("gmu",), ("gmlost",), ("readlost",)],
-        "micro800": [("read", 1), ("read", 3), ("write", 1), ("write", 2), ("readbig", 700, 1), ("writebig", 700)],
+        "micro800": [("read", 1), ("read", 3), ("readmid", 2), ("write", 1), ("write", 2), ("readbig", 700, 1), ("writebig", 700)],
         "slc": [("slcread", 0), ("slcread", 5), ("slcwrite", 1), ("slcdatalog", 1), ("slcdatalog", 3)],
     }
     n_hist = 200 if thorough else 70
